@@ -18,7 +18,7 @@ for fn in sorted(glob.glob(os.path.join(HERE, "tools", "manifest.d", "*.py"))):
 props = [json.loads(l)["id"] for l in open(os.path.join(HERE, "properties.jsonl"))]
 checks = []
 for pid in props:
-    if pid not in CHECKS:
+    if pid not in CHECKS or pid not in READY:
         continue
     technique, text, note, ref = CHECKS[pid]
     checks.append({
@@ -33,7 +33,7 @@ for pid in props:
         "technique": technique,
     })
 na = [{"property_id": p, "reason": NOT_APPLICABLE.get(p, "check not built yet in this session; no claim is made")}
-      for p in props if p not in CHECKS]
+      for p in props if p not in CHECKS or p not in READY]
 doc = {
     "version": 1,
     "setup_cmd": "cd /verif && sh tools/setup.sh",
@@ -44,7 +44,7 @@ doc = {
         "source_commits": [],
         "add_only": True,
     },
-    "engines": [{"name": "vp", "path": "/verif/vp", "serves_properties": sorted(CHECKS),
+    "engines": [{"name": "vp", "path": "/verif/vp", "serves_properties": sorted(set(CHECKS) & set(READY)),
                  "kind_free_text": "Hypothesis-driven generated search (plus sharded exhaustive enumeration of small finite sub-domains) against explicit oracles: reference models, round-trips, differential and metamorphic relations; shrunk failures become JSON replay files re-checked without the library"}],
     "checks": checks,
     "not_applicable": na,
